@@ -109,15 +109,16 @@ def tables(p):
 
 
 # --------------------------------------------------------------------------- SPPF export
-def export_graph(root, p):
+def export_graph(root, p, maps=None):
     """SPPF reachable from root as a list of nodes (ids = discovery order, root = 0).
     sym:  k='S', name, inter, start, end, prio, fams (packed ids, INSERTION order), order (ids in the order
           `children` returns them)
     pack: k='P', rule, rprio, rorder, rname, left, right, prio
     tok:  k='T', term, text, prio, start"""
     from lark.parsers.earley_forest import SymbolNode, PackedNode, TokenNode
-    rule_idx = {id(r): i for i, r in enumerate(p.rules)}
+    rule_idx = {id(r): i for i, r in enumerate(p.rules)} if p is not None else {}
     ids = {}
+    tids = {}
     nodes = []
 
     def visit(n):
@@ -129,12 +130,12 @@ def export_graph(root, p):
         if isinstance(n, TokenNode):
             t = n.token
             nodes[k] = dict(k='T', term=str(getattr(t, 'type', '?')), text=str(t), prio=n.priority,
-                            start=getattr(t, 'start_pos', None))
+                            start=getattr(t, 'start_pos', None), tid=tids.setdefault(id(t), len(tids)))
         elif isinstance(n, SymbolNode):
             if n.is_intermediate:
-                name = '%d.%d' % (rule_idx[id(n.s[0])], n.s[1])
+                name = '%d.%d' % (rule_idx.get(id(n.s[0]), -1), n.s[1])
             else:
-                name = n.s.name
+                name = getattr(n.s, 'name', str(n.s))
             d = dict(k='S', name=name, inter=bool(n.is_intermediate), start=n.start, end=n.end, prio=n.priority)
             nodes[k] = d
             ins = list(iter(n))                 # SymbolNode.__iter__ : _children in insertion order
@@ -143,9 +144,13 @@ def export_graph(root, p):
             d['order'] = [ids[id(c)] for c in srt]
         elif isinstance(n, PackedNode):
             r = n.rule
-            d = dict(k='P', rule=rule_idx[id(r)], rprio=r.options.priority, rorder=r.order,
-                     rname=str(r.alias or r.options.template_source or r.origin.name), prio=n.priority,
-                     pinter=bool(n.parent.is_intermediate))
+            if r is None:       # hand-built forests
+                d = dict(k='P', rule=-1, rprio=None, rorder=0, rname='?', prio=n.priority,
+                         pinter=bool(n.parent.is_intermediate))
+            else:
+                d = dict(k='P', rule=rule_idx.get(id(r), -1), rprio=r.options.priority, rorder=r.order,
+                         rname=str(r.alias or r.options.template_source or r.origin.name), prio=n.priority,
+                         pinter=bool(n.parent.is_intermediate))
             nodes[k] = d
             d['left'] = visit(n.left) if n.left is not None else None
             d['right'] = visit(n.right) if n.right is not None else None
@@ -154,6 +159,9 @@ def export_graph(root, p):
         return k
     sys.setrecursionlimit(10000)
     visit(root)
+    if maps is not None:
+        maps['ids'] = ids
+        maps['tids'] = tids
     return nodes
 
 
@@ -219,8 +227,15 @@ def optZ(x):
 
 
 def coq_forest(nodes, annotated=True):
-    """unfolded Coq literal of the (acyclic) forest: asym when annotated (observed priorities and observed
-    `children` order as indices into the insertion-ordered family list), sym otherwise"""
+    """Coq literal of the (acyclic) forest with sharing unfolded semantically but kept textually: a symbol or
+    token node referenced several times is bound once by `let` (the term denotes the unfolded tree).
+    asym when annotated (observed priorities and observed `children` order as indices into the
+    insertion-ordered family list), sym otherwise"""
+    refs = {}
+    for nd in nodes:
+        for c in kids(nd):
+            refs[c] = refs.get(c, 0) + 1
+    lets = []          # (name, term) in dependency order
     memo = {}
 
     def label(nd):
@@ -250,9 +265,147 @@ def coq_forest(nodes, annotated=True):
                 r = '(APack %s %s %s %s)' % (rinfo(nd), zprio(nd['prio']), lft, rgt)
             else:
                 r = '(Pack %s %s %s)' % (rinfo(nd), lft, rgt)
+        if refs.get(i, 0) > 1 and nd['k'] != 'P':
+            name = 'n%d' % i
+            lets.append((name, r))
+            r = name
         memo[i] = r
         return r
-    return go(0)
+    body = go(0)
+    return '(' + ''.join('let %s := %s in ' % (n, t) for n, t in lets) + body + ')'
+
+
+def coq_vgraph(nodes):
+    """graph form for Forest/Visit.v: VTok tid | VInner (adjacency comes from the recorded callback returns)"""
+    return L(['(Some %d%%N)' % nd['tid'] if nd['k'] == 'T' else 'None' for nd in nodes])
+
+
+def BN(n):
+    return '%d%%N' % n
+
+
+def LN(xs):
+    return L([BN(x) for x in xs]) if xs else '(@nil N)'
+
+
+def coq_event(e):
+    """raw event with binary numbers: (kind, node, path)"""
+    if e[0] == 'cycle':
+        return '(3%%N, %s, %s)' % (BN(e[1]), LN(e[2]))
+    return '(%s, %s, (@nil N))' % ({'in': '0%N', 'out': '1%N', 'tok': '2%N'}[e[0]], BN(e[1]))
+
+
+def coq_utree(t):
+    """lark Tree/Token (TreeForestTransformer output) -> Forest/Tft.v utree literal"""
+    from lark import Tree, Token
+    if isinstance(t, Token):
+        return '(ULeaf %s %s)' % (S(str(t.type)), S(str(t)))
+    if isinstance(t, Tree):
+        if str(t.data) == '_ambig':
+            return '(UAmbig %s)' % L([coq_utree(c) for c in t.children])
+        return '(UNode %s %s)' % (S(str(t.data)), L([coq_utree(c) for c in t.children]))
+    raise TypeError(repr(t))
+
+
+def expand_ambig(t):
+    """all ambiguity-free trees a tree with _ambig nodes stands for, as nested tuples"""
+    from lark import Tree, Token
+    import itertools
+    if isinstance(t, Token):
+        return [('T', str(t.type), str(t))]
+    if str(t.data) == '_ambig':
+        out = []
+        for c in t.children:
+            out += expand_ambig(c)
+        return out
+    parts = [expand_ambig(c) for c in t.children]
+    return [('N', str(t.data), cs) for cs in itertools.product(*parts)]
+
+
+def unshaped(d, rules):
+    """derivation with rule ids -> the unshaped tree TreeForestTransformer builds for it"""
+    if d[0] == 'T':
+        return d
+    return ('N', rules[d[1]]['name'], tuple(unshaped(c, rules) for c in d[2]))
+
+
+def traced_walk(cls, root, ids, tids, args=(), kw=None, method='visit', timeout=10):
+    """run cls(*args).<method>(root) with every callback of the walk recorded.
+    Returns (events, returns, result): events = ('in'|'out', node) | ('tok', tid) | ('cycle', node, path);
+    returns = for every visit_*_in call, the nodes it handed back (None entries dropped)."""
+    from lark.parsers.earley_forest import ForestNode
+    events, rets = [], []
+
+    def mk_in(orig):
+        def f(self, node):
+            events.append(('in', ids[id(node)]))
+            r = orig(self, node)
+            if r is None:
+                rets.append([])
+                return None
+            lst = [r] if isinstance(r, ForestNode) else list(r)
+            lst = [x for x in lst if x is not None]
+            rets.append([ids[id(x)] for x in lst])
+            return lst
+        return f
+
+    def mk_out(orig):
+        def f(self, node):
+            events.append(('out', ids[id(node)]))
+            return orig(self, node)
+        return f
+
+    def tok(orig):
+        def f(self, token):
+            events.append(('tok', tids[id(token)]))
+            return orig(self, token)
+        return f
+
+    def cyc(orig):
+        def f(self, node, path):
+            events.append(('cycle', ids[id(node)], [ids[id(x)] for x in path]))
+            return orig(self, node, path)
+        return f
+    body = {}
+    for nm in ('visit_symbol_node_in', 'visit_packed_node_in', 'visit_intermediate_node_in'):
+        if hasattr(cls, nm):
+            body[nm] = mk_in(getattr(cls, nm))
+    for nm in ('visit_symbol_node_out', 'visit_packed_node_out', 'visit_intermediate_node_out'):
+        if hasattr(cls, nm):
+            body[nm] = mk_out(getattr(cls, nm))
+    body['visit_token_node'] = tok(cls.visit_token_node)
+    body['on_cycle'] = cyc(cls.on_cycle)
+    T = type('Traced' + cls.__name__, (cls,), body)
+    v = T(*args, **(kw or {}))
+    res = with_timeout(timeout, getattr(v, method), root)
+    return dict(events=events, rets=rets, result=res, single=bool(v.single_visit))
+
+
+def derivation_end(t, i, rules, terms, units, dynamic):
+    """t: unshaped ambiguity-free tree (nested tuples); position after t when it is a derivation starting at i
+    of the compiled grammar over the input, else None"""
+    if t[0] == 'T':
+        if dynamic:
+            v = t[2]
+            ok = t[1] in terms and terms[t[1]]['value'] == v and units[i:i + len(v)] == v
+            return i + len(v) if ok else None
+        return i + 1 if i < len(units) and units[i] == (t[1], t[2]) else None
+    shape = [(c[0] == 'T', c[1]) for c in t[2]]
+    ok = False
+    for r in rules:
+        if r['name'] == t[1] and len(r['exp']) == len(shape) and all(
+                a[0] == b[0] and (a[1] == b[1] if a[0] else True) for a, b in zip(r['exp'], shape)):
+            # non-terminal children: their node name must be a name of some rule of that origin
+            if all(a[0] or any(q['origin'] == a[1] and q['name'] == b[1] for q in rules) for a, b in zip(r['exp'], shape)):
+                ok = True
+    if not ok:
+        return None
+    pos = i
+    for c in t[2]:
+        pos = derivation_end(c, pos, rules, terms, units, dynamic)
+        if pos is None:
+            return None
+    return pos
 
 
 def coq_graph(nodes, sorted_order=True):
